@@ -5,6 +5,7 @@ import (
 	"fmt"
 	"math"
 	"math/big"
+	"strings"
 
 	"go.1password.io/spg"
 	"verif/harness/core"
@@ -240,13 +241,84 @@ func c07Run(c *core.Ctx) {
 			c07Recipe(c, r, false)
 		}
 	}
+	// (e) every length 1..200 (thorough 1..700) for recipes whose counts cross
+	// every machine-word and float boundary (2^L exactly, 10^L, ...)
+	dense := []ref.CharRecipe{
+		{RequireSets: []string{"ab"}},                   // count 2^L exactly
+		{AllowChars: "ab", RequireSets: []string{"cd"}}, // 4^L - 2^L
+		{RequireSets: []string{"abcdefgh"}},             // 8^L
+		{RequireSets: []string{"a"}},                    // 1
+		{Require: ref.Digits},                           // 10^L
+		{Allow: ref.Lowers, Require: ref.Digits},        // 36^L - 26^L
+		{Require: ref.Digits, RequireSets: []string{"357"}},
+		{Allow: ref.All, Require: ref.Digits | ref.Symbols, Exclude: ref.Ambiguous},
+		{AllowChars: "abc", RequireSets: []string{"ab", "bc"}},
+		{RequireSets: []string{"ab", "ba"}},
+		{Allow: ref.Uppers | ref.Lowers | ref.Digits | ref.Symbols},
+		{AllowChars: "abcdefghijklmnop"}, // 16^L, no requirement
+	}
+	maxL := 200
+	if c.Thorough() {
+		maxL = 700
+	}
+	for _, r := range dense {
+		for L := 1; L <= maxL; L++ {
+			if c.Mine() {
+				rr := r
+				rr.Length = L
+				c07Recipe(c, rr, false)
+				c.Count("dense_length_evaluations", 1)
+			}
+		}
+	}
+	// (d) every iteration order of the class-flag map range (instrumented build)
+	if verifrtMissing() {
+		c.Incomplete("plain build: iteration order of the class map is the runtime's, not enumerated")
+		return
+	}
+	var sub []ref.CharRecipe
+	flags := []uint32{0, ref.Digits, ref.Symbols, ref.Ambiguous, ref.Digits | ref.Symbols, ref.Uppers | ref.Digits, ref.All, ref.All | ref.Ambiguous}
+	for _, al := range flags {
+		for _, rq := range flags {
+			ex := []uint32{0, ref.Ambiguous}
+			for _, e := range ex {
+				sub = append(sub, ref.CharRecipe{Length: 4, Allow: al, Require: rq, Exclude: e, RequireSets: []string{"a1"}})
+			}
+		}
+	}
+	for _, r := range sub {
+		if !c.Mine() || r.EmptiedReq() {
+			continue
+		}
+		sr := toSpg(r)
+		install(tape.New(&tape.Script{}))
+		var first uint32
+		var firstCnt string
+		n := 0
+		execs, _ := underAllOrders(func(site string) bool { return strings.HasPrefix(site, "char_gen.go") }, func(orders []string) bool {
+			e := math.Float32bits(sr.Entropy())
+			cnt := spg.VerifCount(sr).String()
+			if n == 0 {
+				first, firstCnt = e, cnt
+			} else if e != first || cnt != firstCnt {
+				c.Violation("order "+mustJSON(recipeLit(r)), fmt.Sprintf("Entropy() = %v (count %s) under class-map order %v but %v (count %s) under the first order", math.Float32frombits(e), cnt, orders, math.Float32frombits(first), firstCnt), map[string]interface{}{"recipe": recipeLit(r), "orders": append([]string{}, orders...)})
+				return false
+			}
+			n++
+			return true
+		})
+		c.Count("executions", execs)
+		c.Count("map_order_executions", execs)
+		c07Recipe(c, r, false)
+	}
 }
 
 func init() {
 	Register(&core.Check{
 		ID:    "C07",
 		Level: "model_checking",
-		Rule: "pure configuration enumeration on the real Entropy(): (a) every recipe over the universe {a,b,c,d} (all 16 allow x 16 exclude subsets x every multiset of 0-2 (thorough 0-3) required subsets x lengths 1-4), (b) all 2^15 class-flag triples (x custom sets x lengths up to 5000 in thorough), (c) 5-8 required sets; " +
+		Build: "inst",
+		Rule: "pure configuration enumeration on the real Entropy(): (a) every recipe over the universe {a,b,c,d} (all 16 allow x 16 exclude subsets x every multiset of 0-2 (thorough 0-3) required subsets x lengths 1-4), (b) all 2^15 class-flag triples (x custom sets x lengths up to 5000 in thorough), (c) 5-8 required sets, (e) 12 recipes at every length 1..200 (thorough 700), (d) 128 class-flag recipes under all 120 iteration orders of the class map (instrumented build); " +
 			"oracle: exact integer count == independent inclusion-exclusion (== brute-force string enumeration for length<=3), float32 log within 1 ulp, -Inf iff 0, never NaN, 3 calls identical, no random bytes read; non-trivial = distinct exact counts observed",
 		Assume:    []string{"math/big and math.Log2 are trusted", "recipes in which exclusion empties a required set are outside the premise and skipped (counted)"},
 		Run:       c07Run,
